@@ -72,3 +72,16 @@ Definition rx_filter (h : hdr) (data : list N) (o : rxopts) : res bool :=
       && (if o_rs_lun o then rs_lun r =? rs_lun h else true)
       && (if o_rq_seq o then rq_seq r =? rq_seq h else true))
   end.
+
+(* ---- specification side (not library code): what a conforming responder sends ---- *)
+Definition rsp_hdr_of (h : hdr) : hdr :=
+  mkHdr (rs_sa h) (rs_lun h) (rq_sa h) (rq_lun h) (rq_seq h) (N.lor (netfn h) 1) (cmdid h).
+
+(* the frame a conforming responder puts on the bus for request header [h]:
+   IpmbHeaderRsp.encode of the mirrored header, the body, the payload checksum *)
+Definition rsp_frame (h : hdr) (body : list N) : res (list N) :=
+  do hb <- hdr_rsp_encode (rsp_hdr_of h);
+  do db <- arr_bytes body;
+  let msg := hb ++ db in
+  Ok (msg ++ [checksum (skipn 3 msg)]).
+
